@@ -83,7 +83,7 @@ ASSUMPTIONS = ["node names are strings (CausalInference's set helper rejects any
 NAMEPOOL = ["A", "B", "C", "D", "E", "X", "Y", "Z", "U", "M", "W", "n0", "n1", "n2", "x y", "0", "1", "a-b", "Q", "T",
             "x1", "x10", "x11", "G", "G2", "do", "evidence", "variables", "None", "", "__X", "__A"]
 SUBSTR = ["x", "x1", "x10", "x11", "x110", "G", "G2", "__x", "__x1"]
-BIGINT = [8, 16, 9, 24, 1, 32, 17, 40, 0, 64]     # a set of these does not iterate in increasing order
+BIGINT = [8, 16, 9, 24, 1, 32, 17, 40, 0, 64, 257, 1000, 300]     # a set of these does not iterate in increasing order
 
 
 # ------------------------------------------------------------------ case generation
@@ -150,6 +150,44 @@ def cases(tier, seed):
         n = rng.choice([3, 4])
         nodes, edges = common.rand_dag(rng, n, p=rng.choice([0.5, 0.7, 0.9]))
         out.append(bn_case(rng, n, edges, [], backend="torch"))
+    # ---- O: every container type for node collections (do, query variables, test arguments), fresh objects (N)
+    for i in range(24 if not thorough else 300):
+        n = rng.choice([3, 4, 4])
+        nodes, edges = common.rand_dag(rng, n, p=rng.choice([0.7, 0.9]))
+        c = bn_case(rng, n, edges, [], card1=False)
+        c["kind"] = "forms"
+        out.append(c)
+    # ---- P: mid-sized networks (9 and 12 nodes: chains, trees, sparse DAGs) and a variable with 257 states
+    for i in range(4 if not thorough else 40):
+        n = 12 if (thorough and i % 4 == 3) else 9
+        shape = ["chain", "tree", "sparse"][i % 3]
+        perm = list(range(n))
+        rng.shuffle(perm)
+        if shape == "chain":
+            edges = [(perm[k], perm[k + 1]) for k in range(n - 1)]
+        elif shape == "tree":
+            edges = [(perm[rng.randrange(k)], perm[k]) for k in range(1, n)]
+        else:
+            edges = [(perm[rng.randrange(k)], perm[k]) for k in range(1, n)]
+            extra = [(perm[a], perm[b]) for a in range(n) for b in range(a + 1, n) if (perm[a], perm[b]) not in edges]
+            edges += rng.sample(extra, 3)
+        c = bn_case(rng, n, edges, [], cards=[2] * n)
+        c["kind"] = "mid"
+        out.append(c)
+        if i % 2 == 0 or thorough:
+            out.append({"kind": "graph", "n": n if n == 9 else 10, "edges": [list(e) for e in edges if max(e) < (n if n == 9 else 10)],
+                        "lat": sorted(rng.sample(range(9), rng.randint(0, 2))), "pairs": 2,
+                        "nameseed": rng.randint(0, 10**9)})
+    for i in range(1 if not thorough else 6):
+        # A -> X -> Y, A -> Y, Y -> W with 257 states (beyond a one-byte code): W is summed out / intervened on
+        c = bn_case(rng, 4, [(0, 1), (1, 2), (0, 2), (2, 3)], [], cards=[2, 2, 2, 257])
+        c["kind"] = "mid"
+        out.append(c)
+    # ---- Q: tables typed with 2-3 decimals (column sums within check_model's tolerance, not exactly 1)
+    for i in range(8 if not thorough else 100):
+        n = rng.choice([3, 4])
+        nodes, edges = common.rand_dag(rng, n, p=rng.choice([0.7, 0.9]))
+        out.append(bn_case(rng, n, edges, [], approx=True))
     # ---- sessions on ONE model object + ONE engine: graph edits through every mutator between the calls
     for i in range(36 if not thorough else 400):
         n = rng.choice([3, 4, 4])
@@ -186,9 +224,32 @@ def tiny_column(rng, card):
     return col
 
 
-def bn_case(rng, n, edges, lat, deterministic=False, mag=False, backend="numpy", card1=None):
+def big_column(rng, card, den=1024):
+    """a strictly positive dyadic column for a variable with many states"""
+    parts = [1] * card
+    for _ in range(den - card):
+        parts[rng.randrange(card)] += 1
+    return [Fraction(x, den) for x in parts]
+
+
+def approx_column(rng, card):
+    """a column typed with two or three decimals: within check_model's tolerance of 1 but not exactly normalised
+    (the case stores the exact rational of each float)"""
+    while True:
+        w = [rng.random() + 0.05 for _ in range(card)]
+        t = sum(w)
+        digits = rng.choice([2, 3])
+        col = [round(x / t, digits) for x in w]
+        if all(c > 0 for c in col) and abs(sum(col) - 1) <= 0.005 and sum(Fraction(c) for c in col) != 1:
+            return [Fraction(c) for c in col]
+
+
+def bn_case(rng, n, edges, lat, deterministic=False, mag=False, backend="numpy", card1=None, cards=None, approx=False):
     edges = [tuple(e) for e in edges]
-    cards = [rng.choice([2, 2, 3]) for _ in range(n)]
+    fixed_cards = cards is not None
+    cards = list(cards) if fixed_cards else [rng.choice([2, 2, 3]) for _ in range(n)]
+    if fixed_cards or approx:
+        card1 = False
     if card1 is None:
         card1 = (not deterministic) and rng.random() < 0.12
     if card1:
@@ -208,6 +269,10 @@ def bn_case(rng, n, edges, lat, deterministic=False, mag=False, backend="numpy",
                 cols.append([Fraction(1 if i == k else 0) for i in range(cards[v])])
             elif mag and cards[v] > 1 and rng.random() < 0.7:
                 cols.append(tiny_column(rng, cards[v]))
+            elif approx and cards[v] > 1:
+                cols.append(approx_column(rng, cards[v]))
+            elif cards[v] > 8:
+                cols.append(big_column(rng, cards[v]))
             else:
                 cols.append(common.rand_column(rng, cards[v], zeros=zeros))
         # table[i][j] = P(v = i | column j)
@@ -215,7 +280,7 @@ def bn_case(rng, n, edges, lat, deterministic=False, mag=False, backend="numpy",
         cpds.append({"v": v, "ps": ps, "table": table})
     return {"kind": "bn", "n": n, "edges": [list(e) for e in edges], "lat": list(lat), "cards": cards, "cpds": cpds,
             "style": "str" if deterministic else rng.choice(["str", "str", "int", "tuple", "mixed", "bigint", "substr"]),
-            "backend": backend, "mag": bool(mag),
+            "backend": backend, "mag": bool(mag), "approx": bool(approx),
             "nameseed": rng.randint(0, 10**9), "qseed": rng.randint(0, 10**9)}
 
 
@@ -229,7 +294,7 @@ def shrink(case):
             c = dict(case)
             c["lat"] = case["lat"][:i] + case["lat"][i + 1:]
             yield c
-    elif case["kind"] in ("bn", "sess", "qsess"):
+    elif case["kind"] in ("bn", "sess", "qsess", "forms", "mid"):
         for i in range(len(case["lat"])):
             c = dict(case)
             c["lat"] = case["lat"][:i] + case["lat"][i + 1:]
@@ -237,6 +302,19 @@ def shrink(case):
 
 
 # ------------------------------------------------------------------ helpers
+def fresh(x):
+    """an equal but not identical object (class N): names / states handed to pgmpy are rebuilt at run time"""
+    if isinstance(x, bool):
+        return x
+    if isinstance(x, str):
+        return "".join(list(x)) if len(x) > 1 else x
+    if isinstance(x, int):
+        return int(str(x))
+    if isinstance(x, tuple):
+        return tuple(fresh(y) for y in x)
+    return x
+
+
 def names_for(case):
     if "names" in case:
         return list(case["names"])
@@ -263,9 +341,11 @@ def state_names_for(case, names):
     rng = random.Random(case["nameseed"] + 1)
     sn = {}
     for v, c in enumerate(case["cards"]):
-        style = rng.choice(["int", "str"] if case["kind"] == "sim" else ["int", "str", "revint", "onebased", "bool", "same"])
+        style = rng.choice(["int", "str"] if case["kind"] == "sim" else ["int", "str", "revint", "onebased", "bool", "same", "bigstate"])
         if style == "bool" and c != 2:
             style = "onebased"
+        if style == "same" and c > 3:
+            style = "str"
         if style == "int":
             sn[v] = list(range(c))
         elif style == "str":
@@ -274,6 +354,8 @@ def state_names_for(case, names):
             sn[v] = list(range(1, c + 1))
         elif style == "bool":
             sn[v] = [False, True] if rng.random() < 0.5 else [True, False]
+        elif style == "bigstate":
+            sn[v] = [1000 + 257 * i for i in range(c)]    # ints above CPython's small-int cache
         elif style == "same":
             sn[v] = ["lo", "mid", "hi"][:c]          # the same names across variables
         else:
@@ -472,13 +554,17 @@ def graph_checks(case, drv, m, ci, names, pairs, fnd, tags, multi=True):
     any_backdoor = False
     zk = case.get("nameseed", 0)
     for x, y in pairs:
-        X, Y = names[x], names[y]
+        X, Y = fresh(names[x]), fresh(names[y])
         desc = descendants(case, x)
         others = [v for v in range(n) if v not in (x, y)]
-        for Z in subsets(others):
+        zsets = subsets(others)
+        if n > 6:
+            zr = random.Random(case.get("nameseed", 0) + 17 * x + y)
+            zsets = [[]] + [sorted(zr.sample(others, zr.randint(1, min(4, len(others))))) for _ in range(10)]
+        for Z in zsets:
             t = drv.call("c13_tests", G + [x, y, Z])
             m_bd, m_adj, m_fd, crit_bd, crit_fd, has_dp, nodesc = t
-            Zn = [names[z] for z in Z]
+            Zn = [fresh(names[z]) for z in Z]
             zk += 1
             f1, a1 = zarg(Zn, zk)
             f2, a2 = zarg(Zn, zk + 2)
@@ -621,10 +707,18 @@ def check_minadj(case, drv, ci, names, idx, x, y, fnd, tags):
 
     cand = {model(list(range(n)))}
     if impl not in cand:
-        for perm in itertools.permutations(range(n)):
+        if n <= 6:
+            perms = itertools.permutations(range(n))
+        else:
+            pr = random.Random(n * 100 + x * 10 + y)
+            perms = (pr.sample(range(n), n) for _ in range(300))
+        for perm in perms:
             cand.add(model(perm))
             if impl in cand:
                 break
+    if impl not in cand and n > 6:
+        tags.append("minimal-set: order not found among 300 sampled orders (undecided)")
+        return None
     if impl not in cand:
         return bad("impl!=model:get_minimal_adjustment_set", {"x": x, "y": y, "lat": lat, "impl": str(impl),
                                                               "model_any_order": sorted(map(str, cand))})
@@ -752,14 +846,15 @@ def impl_query(ci, names, sn, Y, dov, adj, algo, probe=0):
     probe: 0 plain call; 1 also argument purity, reuse of the same argument objects for a second call, mutation
     of the first result (result independence)"""
     import copy as _c
-    do = {names[v]: sn[v][i] for v, i in dov}
-    variables = [names[v] for v in Y]
+    do = {fresh(names[v]): fresh(sn[v][i]) for v, i in dov}
+    variables = [fresh(names[v]) for v in Y]
+    vform = case_form = None
     kw = {}
     if adj is not None:
         # documented forms: a set or a list (a frozenset breaks BeliefPropagation.query(variables=frozenset),
         # which is C02's ground, not exercised here)
-        aset = {names[z] for z in adj}
-        kw["adjustment_set"] = aset if (len(adj) + len(Y) + len(dov)) % 2 == 0 else [names[z] for z in adj]
+        aset = {fresh(names[z]) for z in adj}
+        kw["adjustment_set"] = aset if (len(adj) + len(Y) + len(dov)) % 2 == 0 else [fresh(names[z]) for z in adj]
     if (len(Y) + len(dov)) % 2:
         kw["evidence"] = {}
     snap = (_c.deepcopy(variables), _c.deepcopy(do), _c.deepcopy(kw))
@@ -804,7 +899,7 @@ def impl_query(ci, names, sn, Y, dov, adj, algo, probe=0):
     return ("ok", out)
 
 
-def check_query(case, drv, ci, names, sn, Y, dov, adj, algo, fnd, tags, stats, probe=0):
+def check_query(case, drv, ci, names, sn, Y, dov, adj, algo, fnd, tags, stats, probe=0, spec_off=False):
     MB = model_bn(case)
     st, mr = drv.call_e("c13_query", MB + [list(Y), [list(p) for p in dov], [] if adj is None else [list(adj)]])
     d = {"Y": list(Y), "do": [list(p) for p in dov], "adjustment_set": adj, "algo": algo}
@@ -829,8 +924,16 @@ def check_query(case, drv, ci, names, sn, Y, dov, adj, algo, fnd, tags, stats, p
     tups = idx_tuples([case["cards"][v] for v in Y])
     model = {t: common.frac(q) for t, q in zip(tups, mr)}
     spec = {t: common.frac(q) for t, q in zip(tups, drv.call("c13_trunc", MB + [list(Y), [list(p) for p in dov]]))}
+    if case.get("approx"):
+        # not exactly normalised CPDs: pgmpy's VE/BP prune and marginalise CPDs as if they summed to one, the model's
+        # posteriors are conditionals of the full product; they agree up to the tables' own slack (<= 0.5% per column)
+        if not all(abs(ir[t] - float(model[t])) <= 0.03 for t in tups) or abs(sum(ir.values()) - 1) > 1e-9:
+            return bad("impl!=model:query-on-approximately-normalised-tables", dict(d, impl=[ir[t] for t in tups],
+                                                                                     model=[float(model[t]) for t in tups]))
+        tags.append("query:approx-normalised tables (loose comparison)")
+        return None
     same_model = all(relclose(ir[t], model[t]) for t in tups)
-    same_spec = all(relclose(ir[t], spec[t]) for t in tups)
+    same_spec = all(relclose(ir[t], spec[t]) for t in tups) or spec_off
     d2 = dict(d, impl=[ir[t] for t in tups], model=[float(model[t]) for t in tups], truncated=[float(spec[t]) for t in tups])
     if not same_model:
         return bad("impl!=model:query", d2)
@@ -1008,16 +1111,29 @@ def run_sim(case, drv):
             return bad("model-inconsistent:deterministic-truncation-not-a-point-mass", {"X": X})
         dod = {names[v]: sn[v][i] for v, i in dov}
         keep = dict(dod)
-        variant = rng.choice(["do", "do+latents", "virtual"])
-        if variant == "virtual" and any(common.frac(c[2][i]) == 0 for c in mc for (v, i) in dov if c[0] == v):
+        variant = rng.choice(["do", "do+latents", "virtual", "do+virtual"])
+        zero_mass = {v for c in mc for (v, i) in dov if c[0] == v and common.frac(c[2][i]) == 0}
+        if variant == "do+virtual" and (len(dov) != 2 or dov[1][0] in zero_mass):
+            variant = "do"
+        if variant == "virtual" and zero_mass:
             variant = "do"        # a soft intervention is sampled by rejection: the value needs positive natural mass
         before = snapshot(m, names, sn, {nm: i for i, nm in enumerate(names)})
-        if variant == "virtual":
+        from pgmpy.factors.discrete import TabularCPD
+
+        def pmass(v, i):
             # a degenerate virtual intervention (all mass on the do-value) is the same hard intervention
-            from pgmpy.factors.discrete import TabularCPD
-            vi = [TabularCPD(names[v], case["cards"][v], [[1.0 if k == i else 0.0] for k in range(case["cards"][v])],
-                             state_names={names[v]: list(sn[v])}) for v, i in dov]
-            df = m.simulate(n_samples=4, virtual_intervention=vi, show_progress=False, seed=rng.randint(0, 10**6))
+            return TabularCPD(names[v], case["cards"][v], [[1.0 if k == i else 0.0] for k in range(case["cards"][v])],
+                              state_names={names[v]: list(sn[v])})
+
+        if variant == "virtual":
+            df = m.simulate(n_samples=4, virtual_intervention=[pmass(v, i) for v, i in dov], show_progress=False,
+                            seed=rng.randint(0, 10**6))
+        elif variant == "do+virtual":
+            # two optional features together: a hard intervention on one node, a virtual one on another
+            dod = {names[dov[0][0]]: sn[dov[0][0]][dov[0][1]]}
+            keep = dict(dod)
+            df = m.simulate(n_samples=4, do=dod, virtual_intervention=[pmass(*dov[1])], show_progress=False,
+                            seed=rng.randint(0, 10**6))
         else:
             df = m.simulate(n_samples=4, do=dod, include_latents=(variant == "do+latents"), show_progress=False,
                             seed=rng.randint(0, 10**6))
@@ -1482,6 +1598,218 @@ def run_qsess(case, drv):
     return ok(nontrivial=stats["adjusted"] > 0, key=key, tags=tags)
 
 
+# ------------------------------------------------------------------ O: container types of node collections
+ONESHOT = ("gen", "iter", "map", "filter")
+CONTAINERS = ("list", "tuple", "set", "frozenset", "dictkeys", "ndarray", "index") + ONESHOT
+
+
+def container(form, items):
+    import numpy as np
+    import pandas as pd
+    items = [fresh(x) for x in items]
+    if form == "list":
+        return list(items)
+    if form == "tuple":
+        return tuple(items)
+    if form == "set":
+        return set(items)
+    if form == "frozenset":
+        return frozenset(items)
+    if form == "dictkeys":
+        return dict.fromkeys(items).keys()
+    if form == "ndarray":
+        return np.array(items)
+    if form == "index":
+        return pd.Index(items)
+    if form == "gen":
+        return (x for x in items)
+    if form == "iter":
+        return iter(items)
+    if form == "map":
+        return map(lambda x: x, items)
+    if form == "filter":
+        return filter(lambda x: True, items)
+    raise ValueError(form)
+
+
+def forms_for(names):
+    """ndarray / pandas Index keep the names only when they are all str or all int"""
+    plain = all(isinstance(x, str) for x in names) or all(isinstance(x, int) and not isinstance(x, bool) for x in names)
+    return [f for f in CONTAINERS if plain or f not in ("ndarray", "index")]
+
+
+def run_forms(case, drv):
+    """the node collections of do(), query(variables=), the Z / X / Y arguments of the validity tests and of
+    get_proper_backdoor_graph in every container type (list, tuple, set, frozenset, dict view, numpy array, pandas
+    Index, generator, iterator, map, filter), with run-time rebuilt (equal, not identical) names; oracle = the model"""
+    from pgmpy.inference import CausalInference
+    m, names, sn = build_bn(case)
+    n = case["n"]
+    idx = {nm: i for i, nm in enumerate(names)}
+    rng = random.Random(case["qseed"])
+    fnd = Findings()
+    forms = forms_for(names)
+    tags = ["forms n=%d" % n, "names=" + case.get("style", "str")]
+    eset = [tuple(e) for e in case["edges"]]
+    has_pa = [v for v in range(n) if any(w == v for (_, w) in eset)]
+    s0 = model_bn(case)
+    snap0 = snapshot(m, names, sn, idx)
+    # ---- do(): every container, out of place and in place
+    S = rng.sample(has_pa, min(len(has_pa), rng.randint(1, 2))) if has_pa else [rng.randrange(n)]
+    s1 = state_do(drv, s0, S)
+    for form in forms:
+        for inplace in (False, True):
+            target = m.copy() if inplace else m
+            r = target.do(container(form, [names[v] for v in S]), inplace=inplace)
+            d = target if inplace else r
+            dd = cmp_state(d, s1, case, names, sn, idx)
+            if dd:
+                return bad("impl!=model:do-container-form", dict(dd, form=form, inplace=inplace, nodes=S))
+        tags.append("do(" + form + ")")
+    dd = snapshot_diff(snap0, snapshot(m, names, sn, idx))
+    if dd:
+        return bad("mutated-original:do-container-form", dd)
+    # ---- query(variables=<container>)
+    ci = CausalInference(m)
+    xs = has_pa or list(range(n))
+    x = rng.choice(xs)
+    blocked = {x} | {u for (u, w) in eset if w == x}
+    adm = [v for v in range(n) if v not in blocked]
+    if adm:
+        Y = rng.sample(adm, min(len(adm), rng.randint(1, 2)))
+        dov = [(x, rng.randrange(case["cards"][x]))]
+        st, mr = drv.call_e("c13_query", s0 + [list(Y), [list(p_) for p_ in dov], []])
+        if st == "ok":
+            tups = idx_tuples([case["cards"][v] for v in Y])
+            model = {t: common.frac(q) for t, q in zip(tups, mr)}
+            for form in forms:
+                det = {"form": form, "Y": Y, "do": dov}
+                try:
+                    r = ci.query(container(form, [names[v] for v in Y]), do={fresh(names[x]): fresh(sn[x][dov[0][1]])},
+                                 show_progress=False)
+                    okscope = hasattr(r, "variables") and len(r.variables) == len(Y) and set(r.variables) == {names[v] for v in Y}
+                except (ValueError, TypeError, AttributeError) as e:
+                    r, okscope = None, False
+                    det["error"] = repr(e)[:120]
+                good = False
+                if okscope:
+                    good = True
+                    for t in tups:
+                        want = {names[v]: sn[v][i] for v, i in zip(Y, t)}
+                        val = tofloat(r.values[tuple(list(r.state_names[u]).index(want[u]) for u in r.variables)])
+                        good = good and relclose(val, model[t])
+                if not good:
+                    if form in ONESHOT:
+                        fnd.add("impl!=model:query-variables-one-shot-iterable", det, "oneshot-iterable-consumed:query-variables")
+                        tags.append("query(variables=%s): consumed" % form)
+                        continue
+                    return bad("impl!=model:query-variables-container-form", det)
+                tags.append("query(variables=%s)" % form)
+    # ---- the validity tests and the proper back-door graph (string names only: pgmpy's set helper)
+    if all(isinstance(nm, str) for nm in names) and n >= 3:
+        G = gargs(case)
+        pairs = [(a, b) for a in range(n) for b in range(n) if a != b]
+        rng.shuffle(pairs)
+        for (a, b) in pairs[:2]:
+            others = [v for v in range(n) if v not in (a, b)]
+            Z = rng.sample(others, rng.randint(1, len(others)))
+            m_bd, m_adj, m_fd = drv.call("c13_tests", G + [a, b, Z])[:3]
+            pe, _ = drv.call("c13_pbd", G + [[a], [b], Z])
+            X_, Y_, Zn = names[a], names[b], [names[z] for z in Z]
+            for form in forms:
+                det = {"form": form, "x": a, "y": b, "Z": Z}
+                # Z in every container
+                try:
+                    i_bd = ci.is_valid_backdoor_adjustment_set(fresh(X_), fresh(Y_), container(form, Zn))
+                    i_fd = ci.is_valid_frontdoor_adjustment_set(fresh(X_), fresh(Y_), container(form, Zn))
+                except (ValueError, TypeError) as e:
+                    return bad("impl-raises:validity-test-container-form", dict(det, error=repr(e)[:120]))
+                if i_bd != bool(m_bd) or i_fd != bool(m_fd):
+                    if form in ONESHOT:
+                        fnd.add("impl!=model:validity-test-Z-one-shot-iterable", dict(det, impl=[i_bd, i_fd], model=[m_bd, m_fd]),
+                                "oneshot-iterable-consumed:set-helper")
+                    else:
+                        return bad("impl!=model:validity-test-container-form", dict(det, impl=[i_bd, i_fd], model=[m_bd, m_fd]))
+                try:
+                    i_adj = ci.is_valid_adjustment_set([fresh(X_)], [fresh(Y_)], container(form, Zn))
+                    if i_adj != bool(m_adj[0]):
+                        return bad("impl!=model:is_valid_adjustment_set-Z-container-form", dict(det, impl=i_adj, model=m_adj))
+                except (ValueError, TypeError) as e:
+                    fnd.add("impl-raises:is_valid_adjustment_set-Z-container", dict(det, error=repr(e)[:120]),
+                            "array-like-rejected:is_valid_adjustment_set")
+                # X and Y in every container (Z a list)
+                try:
+                    i_adj2 = ci.is_valid_adjustment_set(container(form, [X_]), container(form, [Y_]), list(Zn))
+                    pg = ci.get_proper_backdoor_graph(container(form, [X_]), container(form, [Y_]))
+                    ie = sorted((idx[u], idx[w]) for u, w in pg.edges())
+                except (ValueError, TypeError) as e:
+                    return bad("impl-raises:proper-backdoor-graph-container-form", dict(det, error=repr(e)[:120]))
+                if i_adj2 != bool(m_adj[0]) or ie != sorted(map(tuple, pe)):
+                    if form in ONESHOT:
+                        fnd.add("impl!=model:proper-backdoor-graph-one-shot-iterable",
+                                dict(det, impl=[i_adj2, ie], model=[m_adj, sorted(pe)]), "oneshot-iterable-consumed:proper-backdoor-graph")
+                    else:
+                        return bad("impl!=model:proper-backdoor-graph-container-form", dict(det, impl=[i_adj2, ie], model=[m_adj, sorted(pe)]))
+            tags.append("tests: %d container forms" % len(forms))
+    # ---- R: several do-variables together with an explicit adjustment set (model of the code; no theorem applies)
+    if n >= 4 and len(eset) >= 2:
+        X2 = rng.sample(range(n), 2)
+        dov2 = [(v, rng.randrange(case["cards"][v])) for v in X2]
+        rest = [v for v in range(n) if v not in X2]
+        Yq = [rng.choice(rest)]
+        Zq = [v for v in rest if v not in Yq][:1]
+        stats = {"queries": 0, "adjusted": 0}
+        b = check_query(case, drv, ci, names, sn, Yq, dov2, Zq, rng.choice(["ve", "bp"]), fnd, tags, stats, spec_off=True)
+        if b:
+            return b
+        tags.append("multi-do x explicit adjustment set")
+    key = common.canon_key(["forms", n, case["edges"], case["cards"], case["cpds"], case["qseed"]])
+    kb = fnd.result(key=key, tags=tags)
+    if kb:
+        return kb
+    return ok(nontrivial=bool(has_pa), key=key, tags=tags)
+
+
+# ------------------------------------------------------------------ P: mid-sized networks, many states
+def run_mid(case, drv):
+    from pgmpy.inference import CausalInference
+    m, names, sn = build_bn(case)
+    n = case["n"]
+    idx = {nm: i for i, nm in enumerate(names)}
+    rng = random.Random(case["qseed"])
+    fnd = Findings()
+    tags = ["mid n=%d" % n, "max-card=%d" % max(case["cards"])]
+    stats = {"queries": 0, "adjusted": 0}
+    eset = [tuple(e) for e in case["edges"]]
+    for _ in range(3):
+        Xs = rng.sample(range(n), rng.randint(1, min(n, 4)))
+        b = check_do(case, drv, m, names, sn, idx, Xs, inplace=(rng.random() < 0.3))
+        if b:
+            return b
+    ci = CausalInference(m)
+    has_pa = [v for v in range(n) if any(w == v for (_, w) in eset)]
+    for _ in range(3 if n <= 9 else 2):
+        x = rng.choice(has_pa)
+        blocked = {x} | {u for (u, w) in eset if w == x}
+        adm = [v for v in range(n) if v not in blocked]
+        if not adm:
+            continue
+        desc = descendants(case, x)
+        adm = [v for v in adm if case["cards"][v] <= 16] or adm      # the model recomputes the normaliser per entry
+        ys = [v for v in adm if v in desc] or adm
+        Y = [rng.choice(ys)]
+        dov = [(x, rng.randrange(case["cards"][x]))]
+        for algo in ("ve", "bp"):
+            b = check_query(case, drv, ci, names, sn, Y, dov, None, algo, fnd, tags, stats)
+            if b:
+                return b
+    key = common.canon_key(["mid", n, case["edges"], case["cards"], case["qseed"]])
+    kb = fnd.result(key=key, tags=tags)
+    if kb:
+        return kb
+    return ok(nontrivial=stats["adjusted"] > 0, key=key, tags=tags)
+
+
 def run_case(case, drv):
     if case.get("backend") == "torch":
         from pgmpy import config
@@ -1507,6 +1835,10 @@ def run_case_(case, drv):
         return run_sess(case, drv)
     if k == "gsess":
         return run_gsess(case, drv)
+    if k == "forms":
+        return run_forms(case, drv)
+    if k == "mid":
+        return run_mid(case, drv)
     if k == "qsess":
         return run_qsess(case, drv)
     return bad("harness:unknown-kind", {"kind": k})
